@@ -291,6 +291,7 @@ func (e *Exec) recordViolation(kind, label, detail string, extra *Term) {
 		r, vals = e.checkVals(e.inputs)
 	}
 	if r == Sat {
+		v.HasModel = true
 		for i, in := range e.inputs {
 			v.Inputs = append(v.Inputs, InputVal{Name: in.Name, Tag: e.inputTags[i], Sort: in.Sort, Val: vals[i]})
 		}
